@@ -287,7 +287,7 @@ class Engine:
     MODELLED = re.compile(r"(::len$|as Deref>::deref$|as DerefMut>::deref_mut$|as AsRef<.*>>::as_ref$|::as_slice$|::as_path$|cmp::min::|cmp::max::|"
                           r"::saturating_sub$|::saturating_add$|::max_value$|as Try>::branch$|as FromResidual<.*>>::from_residual$|as Iterator>::position::<|"
                           r"::iter$|as Index<.*>>::index$|as IntoIterator>::into_iter$|as Iterator>::enumerate$|as Iterator>::next$|as Partial(Eq|Ord)>::(eq|ne|ge|gt|le|lt)$|"
-                          r"Option::<\w+>::unwrap_or$|Option::<\w+>::unwrap_or_default$)")
+                          r"Option::<\w+>::unwrap_or$|Option::<\w+>::unwrap_or_default$|Range<usize> as IntoIterator>::into_iter$|Range<usize> as Iterator>::next$)")
 
     def compute_tracked(self, seeds, extra_modelled=None):
         """Locals (and, for aggregates built once by an aggregate rvalue, individual fields) whose
@@ -1163,6 +1163,18 @@ class Engine:
             if z3.is_bv(pay) and dflt is not None and z3.is_bv(dflt):
                 st.pc.append(z3.Or(d == 0, d == 1))
                 return z3.If(d == 1, pay, dflt)
+            return None
+        # ---- Range<usize>: into_iter is the identity, next steps `start` while start < end
+        if re.search(r"Range<usize> as IntoIterator>::into_iter$", c) and argv and argv[0][1] is not None:
+            return ("copy", argv[0][1], argv[0][2])
+        if re.search(r"Range<usize> as Iterator>::next$", c) and argv and isinstance(argv[0][0], Ref):
+            r = argv[0][0].target
+            s0 = self.read_path(st, r + ".0", "usize")
+            e0 = self.read_path(st, r + ".1", "usize")
+            if z3.is_bv(s0) and z3.is_bv(e0):
+                more = z3.ULT(s0, e0)
+                st.store[r + ".0"] = z3.If(more, s0 + 1, s0)
+                return {"#disc": z3.If(more, z3.BitVecVal(1, 64), z3.BitVecVal(0, 64)), "@Some.0": s0}
             return None
         # ---- Try / FromResidual on Result / Option
         if re.search(r"as Try>::branch$", c):
